@@ -567,4 +567,22 @@ Context * Context::createChildRuntime(Context& root, uint8_t recursion) const
   return runtime;
 }
 
+/**
+ * Bring a cached runtime context back to the state in which
+ * createChildRuntime delivers it.
+ * @param shell       the context the runtime was made from
+ */
+void Context::resetRuntime(const Context& shell)
+{
+  size_t n = std::min(_storage_pool.size(), shell._storage_pool.size());
+  for (size_t i = 0; i < n; ++i)
+  {
+    MemorySlot& slot = _storage_pool[i];
+    *slot.symbol = *shell._storage_pool[i].symbol;
+    slot.value = Value(*slot.symbol);
+  }
+  _breakCondition = false;
+  _continueCondition = false;
+}
+
 }
